@@ -43,6 +43,26 @@ CHECKS = {
         text="Round-trip/inverse/fail-iff/total theorems for plain and add-path prefix lists (IPv4 and IPv6) against specification encoders; c19_mp_reach / c19_mp_unreach give the splitters' result for every flags octet, body and callback result; IPv6 next hops 16 or 32 only; wrappers carry the assigned notification. Tied to the Go code by a length sweep over every length octet, generated lists with faults, and the full next-hop-length grid 0..255.",
         note="Trusted: Coq kernel; model-code tie differential; netip.Prefix observed through Bits() and Addr().AsSlice().",
         design="8/C19"),
+    "C05": dict(
+        technique="Coq totality theorems (no Panic/OutOfFuel result for any byte string, any callback behaviour) over models with explicit Go panic semantics + recover-mapped differential on hostile inputs incl. >65535 bytes",
+        text="Decoder half: c05_update_decode, c05_attr_decoders, c05_prefixes, c05_addpath_prefixes, c05_mp_splitters, c05_addpath_tuples, c05_message_from_bytes prove that every exported decoding entry point (and the reader's per-message decoder) returns a value or an error for every byte string; slice-bounds panics and uint8/uint16 wrap-around are part of the model, so a panic would be a distinct result. The Go code is run on the same hostile inputs with recover; a PANIC outcome is a violation with the crashing bytes as replay.",
+        note="Partial: the wedge half (hostile streams at every FSM state followed by a probe session and Close) is decided by the system-level checks shared with C10; blocked TCP writes are runtime behaviour (known finding D13).",
+        design="8/C05"),
+    "C12": dict(
+        technique="Coq theorem: closed-form hold-down schedule for every error history (induction over the streak) + back-dated differential of updateStartupDelay + extracted closed-form oracle",
+        text="c12_delay_schedule: for every history, the i-th protocol error of a streak (first error ever or after >= 300 s of quiet, then gaps < 300 s) sets the hold-down to min(60 s * 2^i, 300 s). The real updateStartupDelay is driven over generated histories by back-dating lastProtoError and compared with the model and the closed form.",
+        note="Partial: which errors start a hold-down (non-Cease notifications sent or received, never Cease/TCP/stop) and the refusal of connections while held down are decided by the system-level checks (peer manager model).",
+        design="8/C12"),
+    "C13": dict(
+        technique="Coq theorem: admission decision = specification predicate; differential of the real handleInboundConn on fake connections + extracted oracle",
+        text="c13_admit_iff: a connection is handed to a peer iff its source is a configured remote address and, when that peer has a local address, the destination equals it; otherwise refused. The real handleInboundConn runs on fake net.Conns recording Close/Write: refused connections see exactly one Close and no Write.",
+        note="Partial: peer-side refusals (inbound in progress, Established, held down, stopping) and 'no effect on existing sessions' are decided by the system-level checks. Address string forms are a trusted abstraction.",
+        design="8/C13"),
+    "C20": dict(
+        technique="Coq refinement to an abstract map (step_refines), inductive lifecycle invariant over all operation sequences, validate = usable; differential on real Server op sequences incl. Serve/Close + dict reference oracle",
+        text="c20_refines: every registry operation on a state satisfying the invariant returns what the abstract map keyed by remote address dictates and transforms it accordingly (exists/not-exist errors, List = exactly the present configs, rejection has no side effect, Serve after Close refused); c20_run_inv: distinct valid keys and 'serving => every registered peer runs, otherwise none' hold after every operation sequence; c20_validate_iff: AddPeer accepts exactly usable configurations; c20_router_id. Real Server objects run generated op sequences (Serve in a goroutine, Close) and the full validation grid.",
+        note="Trusted: atomicity of operations under Server.mu (sync.Mutex), so concurrent histories are lock-serialised sequential ones; that a started peer dials/accepts is decided by the system-level checks (C10/C11).",
+        design="8/C20"),
 }
 
 NOT_YET = "check not built yet in this session (planned; see DESIGN.md section 11)"
